@@ -817,7 +817,17 @@ func (c *ctx) stmt(s ast.Stmt) []instr {
 		if (x.Tok == token.CONTINUE || x.Tok == token.BREAK) && x.Label == nil && len(c.brk) > 0 && c.brk[len(c.brk)-1] == "loop" {
 			return []instr{{op: "Skip"}}
 		}
-		failf(g.pos(s), "%s statement (only unlabelled break / continue directly inside a for loop are modelled)", x.Tok)
+		// an unlabelled continue inside a switch / select still belongs to the innermost enclosing for
+		// loop of this function: skip to the end of that loop's body (the Skip marker travels up through
+		// the If structure the switch / select is translated to)
+		if x.Tok == token.CONTINUE && x.Label == nil {
+			for _, b := range c.brk {
+				if b == "loop" {
+					return []instr{{op: "Skip"}}
+				}
+			}
+		}
+		failf(g.pos(s), "%s statement (only unlabelled continue inside a for loop, and unlabelled break directly inside a for loop, are modelled)", x.Tok)
 	case *ast.LabeledStmt:
 		failf(g.pos(s), "labelled statement")
 	}
